@@ -25,6 +25,7 @@ import (
 	"verif/internal/devsim"
 	"verif/internal/mon"
 	"verif/internal/ncsim"
+	"verif/internal/ncwire"
 	"verif/internal/sshsim"
 )
 
@@ -444,7 +445,10 @@ func genNCScript(seed int64, version string) ncScript {
 	return s
 }
 
-func (s ncScript) server() *ncsim.Server {
+// server builds the NETCONF server model. paced: every reply is sent in two halves 80 ms apart (a
+// slow device).
+func (s ncScript) server(paced ...bool) *ncsim.Server {
+	slow := len(paced) > 0 && paced[0]
 	caps := []string{ncsim.Cap10}
 	if s.Version == "1.1" {
 		caps = append(caps, ncsim.Cap11)
@@ -470,7 +474,21 @@ func (s ncScript) server() *ncsim.Server {
 			sortInts(cuts)
 			sizes = partition(len(p), cuts)
 		}
-		sv.Send(c, p, sizes)
+		if !slow || sv.Version != "1.1" {
+			sv.Send(c, p, sizes)
+			if slow {
+				time.Sleep(0)
+			}
+			return
+		}
+		framed := ncwire.EncodeChunked(p, sizes)
+		k := len(framed) / 2
+		c.Emit(framed[:k])
+		rest := framed[k:]
+		go func() {
+			time.Sleep(80 * time.Millisecond)
+			c.Do(func() { c.Emit(rest); c.Mark() })
+		}()
 	}
 	return srv
 }
@@ -574,14 +592,29 @@ func serverMsgs(conn *devsim.Conn, srv *ncsim.Server) ([]string, string) {
 
 var ncSeq int64
 
+// slowLogger is a user logger on a slow sink: every "channel write" of a lone return takes 30 ms
+// (the library logs synchronously before it writes), which spreads the driver's writes out in time.
+func slowLogger() util.Option {
+	lg, _ := logging.NewInstance(logging.WithLevel(logging.Debug), logging.WithLogger(func(a ...interface{}) {
+		if len(a) > 0 && strings.Contains(fmt.Sprint(a[0]), `channel write "\n"`) {
+			time.Sleep(30 * time.Millisecond)
+		}
+	}))
+	return options.WithLogger(lg)
+}
+
 func runE2ENC(d Desc) mon.Result {
 	t0 := time.Now()
 	s := genNCScript(d.Seed, d.Version)
+	var extra []util.Option
+	if d.Paced {
+		extra = append(extra, slowLogger())
+	}
 	var ref ncOutcome
 	{
-		srv := s.server()
+		srv := s.server(d.Paced)
 		conn := devsim.NewConn(srv, devsim.Config{Seg: devsim.Seg{Mode: "whole"}})
-		nd, err := netconf.NewDriver("ideal", append(baseOpts(d.ReadSize), options.WithCustomTransport(conn))...)
+		nd, err := netconf.NewDriver("ideal", append(append(baseOpts(d.ReadSize), options.WithCustomTransport(conn)), extra...)...)
 		if err != nil {
 			return mon.Result{Verdict: mon.Inconclusive, Detail: "harness: " + err.Error()}
 		}
@@ -594,7 +627,7 @@ func runE2ENC(d Desc) mon.Result {
 	}
 	atomic.AddInt64(&ncSeq, 1)
 	var got ncOutcome
-	model := s.server()
+	model := s.server(d.Paced)
 	var sv *sshsim.Served
 	var smu sync.Mutex
 	srv, e := sshsim.NewServer()
@@ -619,8 +652,8 @@ func runE2ENC(d Desc) mon.Result {
 	if d.T == "system-ssh" {
 		tt = transport.SystemTransport
 	}
-	nd, err := netconf.NewDriver("127.0.0.1", append(baseOpts(d.ReadSize), options.WithTransportType(tt), options.WithPort(srv.Port()),
-		options.WithAuthUsername(sshUser), options.WithAuthPassword(sshPw), options.WithAuthNoStrictKey())...)
+	nd, err := netconf.NewDriver("127.0.0.1", append(append(baseOpts(d.ReadSize), options.WithTransportType(tt), options.WithPort(srv.Port()),
+		options.WithAuthUsername(sshUser), options.WithAuthPassword(sshPw), options.WithAuthNoStrictKey()), extra...)...)
 	if err != nil {
 		return mon.Result{Verdict: mon.Inconclusive, Detail: "harness: NewDriver: " + err.Error()}
 	}
